@@ -346,7 +346,7 @@ func (n *node) handler() kcache.Handler {
 			begin(what, []int{id})
 		}
 	}
-	return kcache.BuildHandler().
+	b := kcache.BuildHandler().
 		OnInitialize(func(objs []metav1.Object) {
 			ids := []int{}
 			for _, o := range objs {
@@ -355,7 +355,12 @@ func (n *node) handler() kcache.Handler {
 			sort.Ints(ids)
 			begin("init", ids)
 		}).
-		OnCreate(one("create")).OnUpdate(one("update")).OnDelete(one("delete")).Create()
+		OnCreate(one("create")).OnUpdate(one("update")).OnDelete(one("delete"))
+	h := b.Create()
+	// the builder is configured again afterwards for another handler: the one
+	// already created is unaffected
+	_ = b.OnCreate(one("hijack")).OnUpdate(one("hijack")).OnDelete(one("hijack")).Create()
+	return h
 }
 
 func (n *node) handlerLog() ([]hrec, bool) {
